@@ -120,3 +120,50 @@ Theorem C02_by_value_positions : forall s N (v : list Z), length v = N ->
   rbind (from_native s N v) (into_native s N) = Ret v /\
   rbind (from_tuple s v) (into_tuple s) = Ret v.
 Proof. exact by_value_positions. Qed.
+
+(* ---- tie to the current source: regenerated on every run by tools/ga2coq (coq/gen) ---- *)
+From Coq Require Import String.
+From GA Require Import Guards GuardTie.
+From GAGen Require Import GenGuards GenConstFns.
+Local Open Scope Z_scope.
+
+(* the guards of the four checked reinterpretations, as they stand in src/lib.rs now, are what
+   the model's functions compute with; they accept exactly L = N; the first and third fail by
+   panicking, the other two by returning LengthError *)
+Theorem C02_source_from_slice : forall N (s : Views.slice),
+  Views.from_slice N s =
+  (if rejects from_slice_guard (slice_env (Views.slen s)) (Z.of_nat N) then Panicked else Ret (Views.sptr s)) /\
+  fails_by_panic from_slice_guard = true.
+Proof. exact tie_from_slice. Qed.
+
+Theorem C02_source_try_from_slice : forall N (s : Views.slice),
+  Views.try_from_slice N s =
+  (if rejects try_from_slice_guard (slice_env (Views.slen s)) (Z.of_nat N)
+   then Ret Views.TErr else Ret (Views.TOk (Views.sptr s))) /\
+  fails_by_panic try_from_slice_guard = false.
+Proof. exact tie_try_from_slice. Qed.
+
+Theorem C02_source_from_mut_slice : forall N (s : Views.slice),
+  Views.from_mut_slice N s =
+  (if rejects from_mut_slice_guard (slice_env (Views.slen s)) (Z.of_nat N) then Panicked else Ret (Views.sptr s)) /\
+  fails_by_panic from_mut_slice_guard = true.
+Proof. exact tie_from_mut_slice. Qed.
+
+Theorem C02_source_try_from_mut_slice : forall N (s : Views.slice),
+  Views.try_from_mut_slice N s =
+  (if rejects try_from_mut_slice_guard (slice_env (Views.slen s)) (Z.of_nat N)
+   then Ret Views.TErr else Ret (Views.TOk (Views.sptr s))) /\
+  fails_by_panic try_from_mut_slice_guard = false.
+Proof. exact tie_try_from_mut_slice. Qed.
+
+Theorem C02_source_guards_exact : forall L N,
+  rejects from_slice_guard (slice_env L) (Z.of_nat N) = negb (Nat.eqb L N) /\
+  rejects try_from_slice_guard (slice_env L) (Z.of_nat N) = negb (Nat.eqb L N) /\
+  rejects from_mut_slice_guard (slice_env L) (Z.of_nat N) = negb (Nat.eqb L N) /\
+  rejects try_from_mut_slice_guard (slice_env L) (Z.of_nat N) = negb (Nat.eqb L N).
+Proof. exact guards_accept_iff. Qed.
+
+Theorem C02_source_const_transmute : forall a b,
+  rejects const_transmute_guard (env2 "size_of_A" a "size_of_B" b) 0 = negb (a =? b) /\
+  fails_by_panic const_transmute_guard = true.
+Proof. exact tie_const_transmute. Qed.
